@@ -1,0 +1,55 @@
+//go:build verif
+
+package ggql
+
+import "io"
+
+// VerifParseSDL runs the SDL scanner alone (no AddTypes, no validation) and reports the kind and name of
+// each definition read, whether it was an extension, and the scanner's error.
+func VerifParseSDL(root *Root, r io.Reader) (kinds, names []string, ext []bool, err error) {
+	root.init()
+	types, extends, err := parseSDL(root, r)
+	add := func(t Type, x bool) {
+		k := "?"
+		switch t.(type) {
+		case *Directive:
+			k = "directive"
+		case *Enum:
+			k = "enum"
+		case *Input:
+			k = "input"
+		case *Interface:
+			k = "interface"
+		case *Schema:
+			k = "schema"
+		case *Object:
+			k = "type"
+		case *Union:
+			k = "union"
+		case *stringScalar:
+			k = "scalar"
+		}
+		kinds = append(kinds, k)
+		names = append(names, t.Name())
+		ext = append(ext, x)
+	}
+	for _, t := range types {
+		add(t, false)
+	}
+	for _, x := range extends {
+		add(x.Adds, true)
+	}
+	return
+}
+
+// VerifParseExe runs the executable scanner alone (no validation) and reports the operation names.
+func VerifParseExe(root *Root, r io.Reader) (ops []string, err error) {
+	root.init()
+	exe, err := parseExe(root, r)
+	if exe != nil {
+		for k := range exe.Ops {
+			ops = append(ops, k)
+		}
+	}
+	return
+}
